@@ -493,3 +493,6 @@ ITEMS = [
     Item('sort_rows.func', sym_sort_func, [('undeclared-and-typed-fields', nat_sort_undeclared_and_typed)], P + 'sort_rows.py::sort_rows.func'),
     Item('string-lemmas', sym_string_lemmas, [('findings', nat_sort_findings)], P + 'sort_rows.py::_sorter.process'),
 ]
+
+from contracts import reuse as _REUSE   # noqa: E402
+ITEMS.append(Item('second-use', None, [('catalogue', _REUSE.nat_second_use_for('C12'))], 'dataflows/processors/sort_rows.py::KeyCalc.__init__'))
